@@ -220,7 +220,19 @@ class Gen(object):
         if c == 0:
             self.simple(fn, ind)
         elif c == 1:
-            self.with_stmt(fn, ind, depth, inloop)
+            if (self.on("raise") and self.on("leave") and self.on("try") and not self.cfg.no_handlers and not infinally
+                    and not noleave and fn.kind not in ("gcm", "agcm") and t.choose(12) == 11):
+                # try: with ...: <body>; if c: return   finally: raise
+                # (the tail of the finally clause, inlined after the return's copy of the exit
+                # sequence, is a raise laid out just before the normal exit sequence)
+                self.emit(fn, ind, "try:")
+                self.force_tail = "return" if fn.kind == "agen" else "return 5"
+                self.with_stmt(fn, ind + 1, depth + 1, inloop)
+                self.force_tail = None
+                self.emit(fn, ind, "finally:")
+                self.emit(fn, ind + 1, "raise W.E%d()" % (1 + t.choose(2)))
+            else:
+                self.with_stmt(fn, ind, depth, inloop)
         elif c == 2:
             self.try_stmt(fn, ind, depth, inloop)
         elif c == 3:
@@ -578,6 +590,7 @@ class Gen(object):
             it["nitems"] = nitems
             self.prog.items[(fn.name, it["k"])] = it
         # body
+        self.cur_with_is_async = is_async
         passive = [it for it in items if it["mkind"] == "passive"]
         bind = ind + 1
         if passive:
@@ -590,10 +603,39 @@ class Gen(object):
             if it.get("prebound") and t.choose(2) == 1:
                 # the local no longer names the manager: varname may not claim it does
                 self.emit(fn, bind, "%s = None" % it["prebound"])
+        tail = getattr(self, "force_tail", None)
+        self.force_tail = None
         self.block(fn, bind, depth + 1, inloop)
+        if tail is not None and not passive:
+            self.emit(fn, bind, "if W.C():")
+            self.emit(fn, bind + 1, tail)
+        if self.on("raise") and self.on("swallow") and not self.cfg.no_handlers and not passive and t.choose(6) == 5:
+            # the body ends in a statement whose own last instruction is a raise that belongs to an
+            # inner block (an inner manager swallows it): the code laid out just before this
+            # with statement's exit sequence cannot fall through, yet the exit is reached normally
+            self.raise_tail(fn, bind, depth + 1)
         if passive:
             self.emit(fn, bind - 1, "finally:")
             self.emit(fn, bind, "W.cout(F, %d)" % passive[0]["k"])
+
+    def raise_tail(self, fn, ind, depth):
+        t = self.t
+        k = fn.next_k
+        fn.next_k += 1
+        guard = ("if W.C():", "while W.C():", None, "try:")[t.weighted([3, 1, 1, 1])]
+        if guard is not None:
+            self.emit(fn, ind, guard)
+            ind += 1
+        expr = "W.m(F, %d, 'S', (), (), 1, 0)" % k
+        ln = self.emit(fn, ind, "with %s:" % expr)
+        self.prog.items[(fn.name, k)] = {
+            "k": k, "is_async": False, "target": None, "supported": True, "prebound": None, "fname": fn.name,
+            "mkind": "S", "expr": expr, "rel_line": ln, "layout": 0, "nitems": 1,
+        }
+        self.emit(fn, ind + 1, "raise W.E%d()" % (1 + t.choose(2)))
+        if guard == "try:":
+            self.emit(fn, ind - 1, "except KeyError:")
+            self.emit(fn, ind, "pass")
 
     def es_population(self, fn, ind, it, depth):
         t = self.t
